@@ -1836,6 +1836,7 @@ static void do_leaf(CMR* cmr)
     case 11: r = CMRverifGcdExt(a, b, &gs, &gt); break;
     case 12: (void) CMRverifGcdExt(a, b, &gs, &gt); r = gs; break;
     case 13: (void) CMRverifGcdExt(a, b, &gs, &gt); r = gt; break;
+    case 14: r = (long long) nextPower2((size_t) a); break;   /* printed unsigned below */
     case 0: r = moduloNonnegative((int) a, (int) b); break;
     case 1: r = moduloTernary((int) a, (int) b); break;
     case 2: r = projectSignedHash(a); break;
@@ -1855,7 +1856,10 @@ static void do_leaf(CMR* cmr)
   oi(a);
   if (two)
     oi(b);
-  oi(r);
+  if (fn == 14)
+    osz((size_t) r);
+  else
+    oi(r);
   rec_end();
 }
 
